@@ -1385,8 +1385,11 @@ func (x *Exec) evalMarker(st *State, call *ast.CallExpr, name string) *Term {
 			x.unsupported(call, "quantifier body must be a function literal")
 		}
 		pv := x.info().Defs[fl.Type.Params.List[0].Names[0]].(*types.Var)
-		if _, isPtr := pv.Type().Underlying().(*types.Pointer); !isPtr {
-			x.unsupported(call, "forall ... in allocated needs a pointer-typed variable")
+		switch pv.Type().Underlying().(type) {
+		case *types.Pointer, *types.Map:
+			// references of both kinds are allocation indices
+		default:
+			x.unsupported(call, "forall ... in allocated needs a pointer- or map-typed variable")
 		}
 		es := x.entryState()
 		if es == nil {
@@ -1399,7 +1402,26 @@ func (x *Exec) evalMarker(st *State, call *ast.CallExpr, name string) *Term {
 		x.boundVars[pv] = bv
 		body := x.eval(tmp, closureExpr(fl))
 		delete(x.boundVars, pv)
-		return Forall([]*Term{bv}, Implies(And(Lt(IntLit(0), bv), Lt(bv, es.alloc)), body))
+		// instantiation patterns: the reads at the bound reference (each one an
+		// alternative), so that a chain of frame facts is followed heap by heap
+		var pats []*Term
+		seenP := map[*Term]bool{}
+		var walk func(t *Term)
+		walk = func(t *Term) {
+			if seenP[t] || !t.Bound {
+				return
+			}
+			seenP[t] = true
+			if t.Op == "select" && len(t.Args) == 2 && t.Args[1] == bv && !t.Args[0].Bound {
+				pats = append(pats, t)
+			}
+			for _, a := range t.Args {
+				walk(a)
+			}
+		}
+		walk(body)
+		q := ForallPat([]*Term{bv}, Implies(And(Lt(IntLit(0), bv), Lt(bv, es.alloc)), body), pats...)
+		return q
 	case "__rlocks", "__wlocked":
 		var mu *Term
 		if ue, ok := ast.Unparen(call.Args[0]).(*ast.UnaryExpr); ok && ue.Op == token.AND {
@@ -1414,6 +1436,42 @@ func (x *Exec) evalMarker(st *State, call *ast.CallExpr, name string) *Term {
 			return x.hread(st, "ghost$rlocks", SInt, mu)
 		}
 		return x.hread(st, "ghost$wlocked", SBool, mu)
+	case "__samemap":
+		// reference identity of two maps (Go itself cannot compare maps)
+		return Eq(x.eval(st, call.Args[0]), x.eval(st, call.Args[1]))
+	case "__samecontent":
+		// the two maps hold the same keys with the same values; an argument of the
+		// form old(e) is read in the entry state
+		side := func(a ast.Expr) (*Term, *Term) {
+			stt := st
+			e := a
+			if c, ok := ast.Unparen(a).(*ast.CallExpr); ok && markerName(c) == "__old" {
+				es := x.entryState()
+				if es == nil {
+					x.unsupported(call, "old() without entry state")
+				}
+				stt = es.clone()
+				e = c.Args[0]
+			} else if ok && markerName(c) == "__entry" {
+				if len(x.loopEntry) == 0 {
+					x.unsupported(call, "entry() outside a loop invariant")
+				}
+				stt = x.loopEntry[len(x.loopEntry)-1].clone()
+				e = c.Args[0]
+			}
+			mt, ok := x.typeOf(e).Underlying().(*types.Map)
+			if !ok {
+				x.unsupported(call, "samecontent needs maps")
+			}
+			x.spec++
+			m := x.eval(stt, e)
+			x.spec--
+			dn, vn, ks, vs := x.mapHeaps(mt)
+			return x.hread(stt, dn, mapSort(ks, SBool), m), x.hread(stt, vn, mapSort(ks, vs), m)
+		}
+		d1, v1 := side(call.Args[0])
+		d2, v2 := side(call.Args[1])
+		return And(Eq(d1, d2), Eq(v1, v2))
 	case "__haskey":
 		m := x.eval(st, call.Args[0])
 		mt, okm := x.typeOf(call.Args[0]).Underlying().(*types.Map)
